@@ -85,7 +85,7 @@ def case_array(c):
         if noise_bg:
             tw = build(c, True)
             twin = [np.array(s.get_samples(3 * N + 4 * mx + 8)) for s in tw.bg_streams]
-        for comp in compositions_gt(N, mx):
+        for comp in (compositions_gt(N, mx) if not c.get('comps') else [tuple(x) for x in c['comps']]):
             cuts = range(1, len(comp)) if c['all_cuts'] else ([1] if len(comp) > 1 else [])
             schedules = [(None, None)] + [(cut, op) for cut in cuts for op in clock_ops[1:]]
             for cut, op in schedules:
@@ -135,7 +135,7 @@ def case_array(c):
                             break
                     t0 = arr.t_start
                     try:
-                        out = np.array(arr.get_samples(req))
+                        out = np.array(arr.get_samples(req if not c.get('ntype') else np.dtype(c['ntype']).type(req)))
                     except Exception as e:
                         V('request_raised', 'request %d of composition %s: %s: %s' % (j, comp, type(e).__name__, e),
                           dict(composition=list(comp), cut=cut, op=list(op) if op else None))
@@ -203,6 +203,12 @@ def run(ctx):
             for npol in (1, 2):
                 for t0 in ((0.0, 20.0) if T else (0.0,)):
                     cases.append(dict(n=n, delays=dl, npol=npol, N=N, t_start=t0, seed=21 + ctx.seed, all_cuts=T))
+    # request sizes as numpy fixed-width integers near the top of their range (size + largest delay does not fit the type)
+    for nt, comps, dl in (('uint8', [[200, 150, 130], [255, 101, 254]], [0, 100]), ('int8', [[100, 120, 127], [127, 31]], [30, 0]),
+                          ('int16', [[200, 150, 130]], [0, 100]), ('uint8', [[200, 150]], [100, 0, 57])):
+        for npol in (1, 2):
+            cases.append(dict(n=len(dl), delays=dl, npol=npol, N=sum(comps[0]), t_start=0.0, seed=21 + ctx.seed, all_cuts=False,
+                              comps=comps, ntype=nt))
     ctx.pmap(case_array, cases, chunk=1)
     return ctx.finish(
         rule='one case per (antenna count 1..3, delay vector in {0..3}^n or omitted, polarisations, start time); inside each case '
